@@ -165,6 +165,9 @@ func shapeSig(c Case) []string {
 		}
 	})
 	out := []string{c.Mode + ":" + c.Expr.T}
+	if c.Lower {
+		out[0] += ":lower"
+	}
 	var ks []string
 	for k := range set {
 		ks = append(ks, k)
